@@ -240,7 +240,7 @@ def gen_cases(tier, seed, C):
     import numpy as np
     rng = random.Random(f"c12-{seed}")
     nrng = np.random.default_rng([seed, 12])
-    nd, nf = (36, 84) if tier == "quick" else (200, 500)
+    nd, nf = (50, 120) if tier == "quick" else (300, 900)
     cases = []
     for k in range(nd):
         cases.append(gen_dyadic_case(rng, nrng, tier, f"d{seed}-{k}", C))
